@@ -36,7 +36,7 @@ class Dispatch(Obligation):
         cfgv = mk(ctx, 'PushConfig', 'subscriptions/subscription', endpoint=StrTok(ep), oidc_token=Enum('Option', 0, {}), attributes=Enum('Option', 0, {}))
         fn = ctx.free_fn('dispatch_message')
         coro = run_to_end(ip.call_fn(fn, [ArcTok(sub, 'Subscription'), pm, cfgv, Opaque('reqwest::Client')]))
-        res, k = run_async(ip, p, coro, budget=1)
+        res, k = run_async(ip, p, coro, budget=getattr(self, 'budget', 1))
         return {'sub': sub, 'ack': ack, 'ep': ep, 'log': list(p.log), 'tok': tok}
 
     def post(self, ip, p, res):
@@ -143,6 +143,8 @@ class PushConfigParse(Obligation):
 
 
 def obligations(ctx, cfg):
-    return [Dispatch(ctx), Registry(), PushConfigParse(),
+    d = Dispatch(ctx)
+    d.budget = 1 if cfg['tier'] == 'quick' else 3
+    return [d, Registry(), PushConfigParse(),
             StepModify(ctx, 2, 2, 1, 'modify conserve', 'C14.b-nack-requeues'),
             StepAck(ctx, 2, 2, 1, 'ack-local', 'C14.b-ack-final')]
